@@ -53,6 +53,14 @@ def transition_rep(name, a, la):
                                            levels=["rep", "sw"], dep_levels=[la]))
 
 
+def transition_dir(name, a, la):
+    """direction-sensitive transition over a two-level factor: 'up' = first level then second, 'down' = second then first, 'same'"""
+    lo, hi = la[0], la[1]
+    return fac(name, ["up", "down", "same"], derive("transition", [a], fn=lambda l, x: None not in x and (
+        (l == "same" and x[0] == x[1]) or (l == "up" and x[0] == lo and x[1] == hi) or (l == "down" and x[0] == hi and x[1] == lo)),
+        levels=["up", "down", "same"], dep_levels=[la]))
+
+
 def window_last(name, a, la, width, stride=1, start=None, first="r"):
     """level 'hit' iff the oldest trial of the window has level `first` (None counts as not)"""
     return fac(name, ["hit", "miss"], derive("window", [a], fn=lambda l, x: (x[0] == first) == (l == "hit"), width=width, stride=stride, start=start,
@@ -77,6 +85,8 @@ def curated():
     out.append(D("min-4-of-2", [c2], cross(["c"], ["c"], [["MinimumTrials", 4]]), ["mintrials"]))
     out.append(D("min-5-of-2x2", [c2, d2], cross(["c", "d"], ["c", "d"], [["MinimumTrials", 5]]), ["mintrials"]))
     out.append(D("min-3-of-3", [e3], cross(["e"], ["e"], [["MinimumTrials", 3]]), ["mintrials"]))
+    out.append(D("min-5-uncrossed-first", [c2, d2], cross(["c", "d"], ["d"], [["MinimumTrials", 5]]), ["mintrials"]))
+    out.append(D("min-4-uncrossed-first-3", [e3, d2], cross(["e", "d"], ["d"], [["MinimumTrials", 4]]), ["mintrials"]))
     # --- each constraint class on a plain crossing
     for k in (1, 2):
         out.append(D(f"atmost{k}-c", [c2, d2], cross(["c", "d"], ["c", "d"], [["AtMostKInARow", k, "c", "r"]]), ["atmost"]))
@@ -126,6 +136,8 @@ def curated():
     out.append(D("transition-uncrossed", [c2, tr], cross(["c", "t"], ["c"], [["MinimumTrials", 3]]), ["transition", "mintrials"]))
     out.append(D("transition-crossed", [c2, tr], cross(["c", "t"], ["c", "t"]), ["transition", "derived-crossed", "preamble"]))
     out.append(D("transition-only-crossed", [c2, tr], cross(["c", "t"], ["t"]), ["transition", "derived-crossed", "preamble"]))
+    out.append(D("transition-dir-crossed", [c2, d2, transition_dir("o", "c", A2)], cross(["c", "d", "o"], ["d", "o"]), ["transition", "derived-crossed", "preamble", "directional"]))
+    out.append(D("transition-dir-only-crossed", [c2, transition_dir("o", "c", A2)], cross(["c", "o"], ["o"]), ["transition", "derived-crossed", "preamble", "directional"]))
     out.append(D("transition-atmost", [c2, d2, tr], cross(["c", "d", "t"], ["c", "d"], [["AtMostKInARow", 1, "t", "rep"]]), ["transition", "atmost"]))
     out.append(D("transition-exactlyk", [c2, d2, tr], cross(["c", "d", "t"], ["c", "d"], [["ExactlyK", 1, "t", "rep"]]), ["transition", "exactlyk"]))
     out.append(D("transition-pin", [c2, d2, tr], cross(["c", "d", "t"], ["c", "d"], [["Pin", 1, "t", "rep"]]), ["transition", "pin"]))
@@ -200,6 +212,19 @@ def curated():
     out.append(D("nest-inner-atmost", [c2, d2, fac("g", ["u", "v"])], nest(cross(["c"], ["c"]), cross(["d", "g"], ["d"], [["AtMostKInARow", 1, "g", "u"]])), ["nest", "scope-inner", "atmost"]))
     out.append(D("nest-own-atmost", [c2, d2, fac("g", ["u", "v"])], nest(cross(["c"], ["c"]), cross(["d", "g"], ["d"]), [["AtMostKInARow", 1, "g", "u"]]), ["nest", "scope-outer", "atmost"]))
     out.append(D("nest-outer-uncrossed", [c2, d2, fac("g", ["u", "v"])], nest(cross(["c", "g"], ["c"]), cross(["d"], ["d"])), ["nest"]))
+    # combinators over blocks that contain factors the library handles internally: an implied derived factor (neither crossed nor constrained),
+    # a weighted factor outside the crossing (replaced by hidden factors), and a constraint on such a weighted factor
+    wdu = fac("d", [["x", 2], ["y", 1]])
+    gk = within_eq("k", "d", "g", ["x", "y"], ["x", "y"])
+    gx = fac("g", ["x", "y"])
+    out.append(D("nest-inner-implied-derived", [c2, d2, gx, gk], nest(cross(["c"], ["c"]), cross(["d", "g", "k"], ["d"])), ["nest", "within", "implied"]))
+    out.append(D("nest-outer-implied-derived", [c2, d2, gx, gk], nest(cross(["d", "g", "k"], ["d"]), cross(["c"], ["c"])), ["nest", "within", "implied"]))
+    out.append(D("nest-inner-weighted-uncrossed", [c2, gx, wdu], nest(cross(["c"], ["c"]), cross(["g", "d"], ["g"])), ["nest", "weight", "weight-uncrossed"]))
+    out.append(D("nest-outer-weighted-uncrossed", [c2, gx, wdu], nest(cross(["c", "d"], ["c"]), cross(["g"], ["g"])), ["nest", "weight", "weight-uncrossed"]))
+    out.append(D("w-uncrossed-atmost", [c2, wdu], cross(["c", "d"], ["c"], [["AtMostKInARow", 1, "d", "x"], ["MinimumTrials", 4]]), ["weight", "weight-uncrossed", "atmost", "mintrials"]))
+    out.append(D("merge-weighted-uncrossed-atmost", [c2, gx, wdu], merge([cross(["g"], ["g"]), cross(["c", "d"], ["c"], [["AtMostKInARow", 1, "d", "x"]])]), ["merge", "weight", "weight-uncrossed", "atmost", "scope-inner"]))
+    out.append(D("nest-weighted-uncrossed-atmost", [c2, gx, wdu], nest(cross(["c"], ["c"]), cross(["g", "d"], ["g"], [["AtMostKInARow", 1, "d", "x"]])), ["nest", "weight", "weight-uncrossed", "atmost", "scope-inner"]))
+    out.append(D("repeat-weighted-uncrossed-atmost", [c2, wdu], repeat(cross(["c", "d"], ["c"], [["AtMostKInARow", 1, "d", "x"]]), [["MinimumTrials", 4]]), ["repeat", "weight", "weight-uncrossed", "atmost", "scope-inner"]))
     out.append(D("nest-outer-sequential", [c2, d2], nest(cross(["c"], ["c"], [["Sequential", "c"]]), cross(["d"], ["d"])), ["nest", "sequential", "outer-constraint"]))
     out.append(D("nest-inner-sequential", [c2, d2], nest(cross(["c"], ["c"]), cross(["d"], ["d"], [["Sequential", "d"]])), ["nest", "sequential"]))
     out.append(D("nest-outer-atmost", [f3, d2], nest(cross(["f"], ["f"], [["AtMostKInARow", 2, "f", "p"]]), cross(["d"], ["d"])), ["nest", "outer-constraint", "atmost"]))
@@ -224,6 +249,10 @@ def curated():
                  cross(["c", "w", "k"], ["k"]), ["weight", "within", "derived-crossed"]))
     out.append(D("w2-derived-crossed-repeat5", [c2, fac("w", A2), {"name": "k", "levels": [["same", 2], ["diff", 1]], "derive": within_eq("k", "c", "w", A2, A2)["derive"]}],
                  repeat(cross(["c", "w", "k"], ["k"]), [["MinimumTrials", 5]]), ["weight", "within", "derived-crossed", "repeat", "partial"]))
+    # a weighted factor outside the crossing whose copies feed a crossed derived factor
+    cw = fac("c", [["r", 2], ["g", 1]])
+    out.append(D("w-uncrossed-feeds-crossed-derived", [cw, fac("w", A2), within_eq("k", "c", "w", A2, A2)], cross(["c", "w", "k"], ["k"]), ["weight", "weight-uncrossed", "within", "derived-crossed"]))
+    out.append(D("w-uncrossed-feeds-crossed-derived-2", [cw, fac("w", A2), within_eq("k", "c", "w", A2, A2)], cross(["c", "w", "k"], ["w", "k"]), ["weight", "weight-uncrossed", "within", "derived-crossed"]))
     # --- wide windows in the crossing (two preamble trials) with several basic factors
     out.append(D("window3-crossed-2basic", [c2, d2, window_last("v", "c", A2, 3)], cross(["c", "d", "v"], ["c", "v"]), ["window", "derived-crossed", "preamble", "preamble2"]))
     # --- LatinSquare
